@@ -107,6 +107,8 @@ func Leaves(level int) []Leaf {
 	add("array-array", "array", J{"type": "array", "items": J{"type": "array", "items": J{"type": "number"}}}, nil, true)
 	add("array-obj", "array", J{"type": "array", "items": J{"type": "object", "properties": J{"k": J{"type": "string"}}, "required": A{"k"}}}, nil, true)
 	add("array-enum", "array", J{"type": "array", "items": J{"enum": A{"r", "g"}}}, nil, true)
+	add("array-null-items", "array", J{"type": "array", "items": J{"type": "null"}}, nil, true)
+	add("array-null-items-lim", "array", J{"type": "array", "items": J{"type": "null"}, "minItems": 1, "maxItems": 3}, nil, true)
 	add("object", "object", J{"type": "object", "properties": J{"k": J{"type": "string"}, "n": J{"type": "integer", "minimum": 1}}, "required": A{"k"}}, nil, true)
 	add("object-allreq-default", "object", J{"type": "object", "properties": J{"k": J{"type": "string"}}, "required": A{"k"}}, J{"k": "v"}, true)
 	// a wide object: many members, every validator family at once (count / order thresholds in the generator bite here)
@@ -143,7 +145,6 @@ func Leaves(level int) []Leaf {
 		add("array-str-lim", "array", J{"type": "array", "items": J{"type": "string", "minLength": 1}, "minItems": 2}, A{"x", "y"}, true)
 		add("array-3d", "array", J{"type": "array", "items": J{"type": "array", "items": J{"type": "array", "items": J{"type": "integer"}}}}, nil, true)
 		add("array-nullable-items", "array", J{"type": "array", "items": J{"type": A{"string", "null"}}}, nil, true)
-		add("array-null-items", "array", J{"type": "array", "items": J{"type": "null"}}, nil, true)
 		add("map-int", "map", J{"type": "object", "additionalProperties": J{"type": "integer"}}, nil, true)
 		add("map-any", "map", J{"type": "object", "additionalProperties": true}, nil, true)
 		add("object-nested", "object", J{"type": "object", "properties": J{"o": J{"type": "object", "properties": J{"k": J{"type": "string", "minLength": 1}}}}}, nil, true)
